@@ -764,9 +764,7 @@ func c18RunScenarioWith(scn c18Scn, uniq int, hooks *c18Hooks) *c18ScnResult {
 			out := fmt.Sprintf("ret=%s main=%s handler=%s new=%d attempts=%d map=%s cur=%s subs=%s alive=%s open=%s",
 				ret, fe(or.MainErrs), fe(or.HandlerRes), or.NewStreams, or.Attempts, fi(or.Map), fi(or.Cur),
 				fi(or.CurSubs), b2(or.Alive), b2(or.Open))
-			if chaos || or.Ret == "hung" {
-				// concurrent HandleServerShutdown invocations: outside
-				// the modelled fragment, oracle only from here on
+			if or.Ret == "hung" {
 				modelled = false
 			} else {
 				res.Lines = append(res.Lines, [2]string{line, out})
